@@ -1569,7 +1569,7 @@ pub fn val_history(toks: &[&str]) -> Res {
 fn signed_case(args: &[&str]) -> Res {
     let bad = || Err("bad-op mem.arith".to_string());
     let (op, form) = (args[0], args[1]);
-    if !matches!(form, "rr" | "rv" | "vr" | "vv") {
+    if !matches!(form, "rr" | "rv" | "vr" | "vv" | "av" | "ar") {
         return bad();
     }
     let ok_hex = |s: &str| hex_to_words(s.strip_prefix('-').unwrap_or(s)).is_some();
@@ -1588,8 +1588,25 @@ fn signed_case(args: &[&str]) -> Res {
     };
     let (mut a, mut b) = (Some(a), Some(b));
     macro_rules! forms {
-        ($o:tt) => {
+        ($o:tt, $oa:tt) => {
             match form {
+                // `x op= y` / `x op= &y` (impl_binop_assign_by_taking: `*self = mem::take(self) op rhs`)
+                "av" => {
+                    let mut x = a.take().unwrap();
+                    let y = b.take().unwrap();
+                    guarded(move || {
+                        x $oa y;
+                        x
+                    })
+                }
+                "ar" => {
+                    let mut x = a.take().unwrap();
+                    let y = b.as_ref().unwrap();
+                    guarded(move || {
+                        x $oa y;
+                        x
+                    })
+                }
                 "rr" => {
                     let (x, y) = (a.as_ref().unwrap(), b.as_ref().unwrap());
                     guarded(|| x $o y)
@@ -1613,9 +1630,14 @@ fn signed_case(args: &[&str]) -> Res {
         };
     }
     let res: Result<IBig, (String, String)> = match op {
-        "iadd" => forms!(+),
-        "isub" => forms!(-),
-        _ => forms!(*),
+        "iadd" => forms!(+, +=),
+        "isub" => forms!(-, -=),
+        "idiv" => forms!(/, /=),
+        "irem" => forms!(%, %=),
+        "iand" => forms!(&, &=),
+        "ior" => forms!(|, |=),
+        "ixor" => forms!(^, ^=),
+        _ => forms!(*, *=),
     };
     let ev = drain_events();
     let head = match &res {
@@ -1682,6 +1704,293 @@ fn frombytes_case(args: &[&str]) -> Res {
     Ok(format!("{}|{} end:{}:live={}:dfree={}", head, ev, drops, live, dfree))
 }
 
+/// one- or two-result heads of `mem.arith`
+fn head_ibig(r: &IBig) -> String {
+    let (cap, len) = ibig_repr_info(r);
+    format!("r{}/{}/{}", cap, len, ws_str(r.as_sign_words().1))
+}
+fn head_ubig(r: &UBig) -> String {
+    let (cap, len) = ubig_repr_info(r);
+    format!("r{}/{}/{}", cap, len, ws_str(r.as_words()))
+}
+
+/// `mem.arith idivrem <form> <a> <b>` (signed hex operands), `mem.arith ishl|ishr v|r <a> d:<n>`, `mem.arith ipow r <a> d:<n>`,
+/// `mem.arith setbit|clearbit|clearhigh|splitbits|nextpow2 v <a> d:<n>`: one public call, its allocator events, then the drops
+fn unary_case(args: &[&str]) -> Res {
+    use dashu_base::{DivRem, PowerOfTwo, SquareRootRem};
+    let bad = || Err("bad-op mem.arith".to_string());
+    let (op, form) = (args[0], args[1]);
+    let signed = matches!(op, "idivrem" | "ishl" | "ishr" | "ipow");
+    let ok_hex = |s: &str| hex_to_words(s.strip_prefix('-').unwrap_or(s)).is_some();
+    let form_ok = match op {
+        "idivrem" => matches!(form, "rr" | "rv" | "vr" | "vv"),
+        "ishl" | "ishr" => matches!(form, "v" | "r" | "a"),
+        "ipow" | "sqrtrem" => form == "r",
+        _ => form == "v",
+    };
+    if !form_ok || !(if signed { ok_hex(args[2]) } else { hex_to_words(args[2]).is_some() }) {
+        return bad();
+    }
+    let n: usize = if op == "idivrem" {
+        if !ok_hex(args[3]) {
+            return bad();
+        }
+        0
+    } else {
+        match p_usize(args[3]) {
+            Ok(n) => n,
+            Err(_) => return bad(),
+        }
+    };
+    hist_begin(true);
+    let built = guarded(|| {
+        let a = p_ibig(args[2]).unwrap();
+        let b = if op == "idivrem" { p_ibig(args[3]).unwrap() } else { IBig::ZERO };
+        (a, b)
+    });
+    clear_log();
+    let (a, b) = match built {
+        Ok(x) => x,
+        Err(_) => {
+            hist_end();
+            return bad();
+        }
+    };
+    let (mut a, mut b) = (Some(a), Some(b));
+    // the result(s) as a list of heads; kept alive until after the events were drained
+    enum Out {
+        I(IBig),
+        U(UBig),
+        II(IBig, IBig),
+        UU(UBig, UBig),
+    }
+    let mut kept: Option<UBig> = None;
+    let res: Result<Out, (String, String)> = match op {
+        "idivrem" => match form {
+            "rr" => {
+                let (x, y) = (a.as_ref().unwrap(), b.as_ref().unwrap());
+                guarded(|| x.div_rem(y)).map(|(q, r)| Out::II(q, r))
+            }
+            "rv" => {
+                let x = a.as_ref().unwrap();
+                let y = b.take().unwrap();
+                guarded(move || x.div_rem(y)).map(|(q, r)| Out::II(q, r))
+            }
+            "vr" => {
+                let x = a.take().unwrap();
+                let y = b.as_ref().unwrap();
+                guarded(move || x.div_rem(y)).map(|(q, r)| Out::II(q, r))
+            }
+            _ => {
+                let x = a.take().unwrap();
+                let y = b.take().unwrap();
+                guarded(move || x.div_rem(y)).map(|(q, r)| Out::II(q, r))
+            }
+        },
+        "ishl" | "ishr" => {
+            if form == "a" {
+                let mut x = a.take().unwrap();
+                if op == "ishl" {
+                    guarded(move || {
+                        x <<= n;
+                        x
+                    })
+                    .map(Out::I)
+                } else {
+                    guarded(move || {
+                        x >>= n;
+                        x
+                    })
+                    .map(Out::I)
+                }
+            } else if form == "v" {
+                let x = a.take().unwrap();
+                if op == "ishl" {
+                    guarded(move || x << n).map(Out::I)
+                } else {
+                    guarded(move || x >> n).map(Out::I)
+                }
+            } else {
+                let x = a.as_ref().unwrap();
+                if op == "ishl" {
+                    guarded(|| x << n).map(Out::I)
+                } else {
+                    guarded(|| x >> n).map(Out::I)
+                }
+            }
+        }
+        "ipow" => {
+            let x = a.as_ref().unwrap();
+            guarded(|| x.pow(n)).map(Out::I)
+        }
+        _ => {
+            // by-value bit methods of UBig (`&mut self` methods are `mem::take(self)` + the by-value TypedRepr method)
+            let x: UBig = match a.take().unwrap().try_into() {
+                Ok(u) => u,
+                Err(_) => {
+                    hist_end();
+                    return bad();
+                }
+            };
+            if op == "sqrtrem" {
+                // `UBig::sqrt_rem(&self)`: the operand stays alive until the events were drained
+                let r = guarded(|| x.sqrt_rem()).map(|(s, r)| Out::UU(s, r));
+                kept = Some(x);
+                r
+            } else {
+            match op {
+                "setbit" => guarded(move || {
+                    let mut x = x;
+                    x.set_bit(n);
+                    x
+                })
+                .map(Out::U),
+                "clearbit" => guarded(move || {
+                    let mut x = x;
+                    x.clear_bit(n);
+                    x
+                })
+                .map(Out::U),
+                "clearhigh" => guarded(move || {
+                    let mut x = x;
+                    x.clear_high_bits(n);
+                    x
+                })
+                .map(Out::U),
+                "splitbits" => guarded(move || x.split_bits(n)).map(|(lo, hi)| Out::UU(lo, hi)),
+                _ => guarded(move || x.next_power_of_two()).map(Out::U),
+            }
+            }
+        }
+    };
+    let ev = drain_events();
+    let head = match &res {
+        Ok(Out::I(r)) => head_ibig(r),
+        Ok(Out::U(r)) => head_ubig(r),
+        Ok(Out::II(q, r)) => format!("{}&{}", head_ibig(q), head_ibig(r)),
+        Ok(Out::UU(q, r)) => format!("{}&{}", head_ubig(q), head_ubig(r)),
+        Err((msg, loc)) => format!("!{}", classify_panic(msg, loc)),
+    };
+    let _ = guarded(move || {
+        drop(res);
+        drop(a);
+        drop(b);
+        drop(kept);
+    });
+    let drops = drain_sorted_drops();
+    let (live, dfree, overflow) = counters();
+    hist_end();
+    let mut s = format!("{}|{} end:{}:live={}:dfree={}", head, ev, drops, live, dfree);
+    if overflow {
+        s.push_str(":!log-overflow");
+    }
+    Ok(s)
+}
+
+/// `mem.arith divrem <form> <a> <b>`: one `DivRem::div_rem` call on `UBig` operands in one ownership form; both
+/// results (quotient `&` remainder) with their layout, the allocator events of the call, then the drops
+fn divrem_case(args: &[&str]) -> Res {
+    use dashu_base::DivRem;
+    let bad = || Err("bad-op mem.arith".to_string());
+    let form = args[1];
+    if !matches!(form, "rr" | "rv" | "vr" | "vv") || hex_to_words(args[2]).is_none() || hex_to_words(args[3]).is_none() {
+        return bad();
+    }
+    hist_begin(true);
+    let built = guarded(|| (p_ubig(args[2]).unwrap(), p_ubig(args[3]).unwrap()));
+    clear_log();
+    let (a, b) = match built {
+        Ok(x) => x,
+        Err(_) => {
+            hist_end();
+            return bad();
+        }
+    };
+    let (mut a, mut b) = (Some(a), Some(b));
+    let res: Result<(UBig, UBig), (String, String)> = match form {
+        "rr" => {
+            let (x, y) = (a.as_ref().unwrap(), b.as_ref().unwrap());
+            guarded(|| x.div_rem(y))
+        }
+        "rv" => {
+            let x = a.as_ref().unwrap();
+            let y = b.take().unwrap();
+            guarded(move || x.div_rem(y))
+        }
+        "vr" => {
+            let x = a.take().unwrap();
+            let y = b.as_ref().unwrap();
+            guarded(move || x.div_rem(y))
+        }
+        _ => {
+            let x = a.take().unwrap();
+            let y = b.take().unwrap();
+            guarded(move || x.div_rem(y))
+        }
+    };
+    let ev = drain_events();
+    let head = match &res {
+        Ok((q, r)) => {
+            let (qc, ql) = ubig_repr_info(q);
+            let (rc, rl) = ubig_repr_info(r);
+            format!("r{}/{}/{}&r{}/{}/{}", qc, ql, ws_str(q.as_words()), rc, rl, ws_str(r.as_words()))
+        }
+        Err((msg, loc)) => format!("!{}", classify_panic(msg, loc)),
+    };
+    let _ = guarded(move || {
+        drop(res);
+        drop(a);
+        drop(b);
+    });
+    let drops = drain_sorted_drops();
+    let (live, dfree, _) = counters();
+    hist_end();
+    Ok(format!("{}|{} end:{}:live={}:dfree={}", head, ev, drops, live, dfree))
+}
+
+/// `mem.arith pow r <a> d:<exp>`: `UBig::pow(&self, exp)`; the operand stays alive
+fn pow_case(args: &[&str]) -> Res {
+    let bad = || Err("bad-op mem.arith".to_string());
+    if args[1] != "r" || hex_to_words(args[2]).is_none() {
+        return bad();
+    }
+    let exp = match p_usize(args[3]) {
+        Ok(n) => n,
+        Err(_) => return bad(),
+    };
+    hist_begin(true);
+    let built = guarded(|| p_ubig(args[2]).unwrap());
+    clear_log();
+    let a = match built {
+        Ok(x) => x,
+        Err(_) => {
+            hist_end();
+            return bad();
+        }
+    };
+    let res = guarded(|| a.pow(exp));
+    let ev = drain_events();
+    let head = match &res {
+        Ok(r) => {
+            let (cap, len) = ubig_repr_info(r);
+            format!("r{}/{}/{}", cap, len, ws_str(r.as_words()))
+        }
+        Err((msg, loc)) => format!("!{}", classify_panic(msg, loc)),
+    };
+    let _ = guarded(move || {
+        drop(res);
+        drop(a);
+    });
+    let drops = drain_sorted_drops();
+    let (live, dfree, overflow) = counters();
+    hist_end();
+    let mut s = format!("{}|{} end:{}:live={}:dfree={}", head, ev, drops, live, dfree);
+    if overflow {
+        s.push_str(":!log-overflow");
+    }
+    Ok(s)
+}
+
 /// `mem.arith <op> <form> <a> <b>`: exactly one public `UBig` call (`+ - *` in the four ownership
 /// forms, `<< >>` by value / by reference) with the allocator events it causes, then the drops of
 /// the result and of the operands that are still alive.
@@ -1694,8 +2003,17 @@ pub fn arith_case(args: &[&str]) -> Res {
     if op == "frombytes" {
         return frombytes_case(args);
     }
-    if matches!(op, "iadd" | "isub" | "imul") {
+    if matches!(op, "iadd" | "isub" | "imul" | "idiv" | "irem" | "iand" | "ior" | "ixor") {
         return signed_case(args);
+    }
+    if op == "divrem" {
+        return divrem_case(args);
+    }
+    if matches!(op, "idivrem" | "ishl" | "ishr" | "ipow" | "setbit" | "clearbit" | "clearhigh" | "splitbits" | "nextpow2" | "sqrtrem") {
+        return unary_case(args);
+    }
+    if op == "pow" {
+        return pow_case(args);
     }
     if op == "sqr" {
         // `UBig::sqr(&self)`: the operand stays alive
@@ -1731,10 +2049,10 @@ pub fn arith_case(args: &[&str]) -> Res {
         return Ok(format!("{}|{} end:{}:live={}:dfree={}", head, ev, drops, live, dfree));
     }
     let shift = matches!(op, "shl" | "shr");
-    if !shift && !matches!(op, "add" | "sub" | "mul" | "div" | "rem") {
+    if !shift && !matches!(op, "add" | "sub" | "mul" | "div" | "rem" | "and" | "or" | "xor") {
         return bad();
     }
-    let form_ok = if shift { matches!(form, "v" | "r") } else { matches!(form, "rr" | "rv" | "vr" | "vv") };
+    let form_ok = if shift { matches!(form, "v" | "r" | "a") } else { matches!(form, "rr" | "rv" | "vr" | "vv" | "av" | "ar") };
     if !form_ok || hex_to_words(args[2]).is_none() {
         return bad();
     }
@@ -1767,7 +2085,21 @@ pub fn arith_case(args: &[&str]) -> Res {
     };
     let (mut a, mut b) = (Some(a), Some(b));
     let res: Result<UBig, (String, String)> = if shift {
-        if form == "v" {
+        if form == "a" {
+            // `x <<= n` / `x >>= n`
+            let mut x = a.take().unwrap();
+            if op == "shl" {
+                guarded(move || {
+                    x <<= n;
+                    x
+                })
+            } else {
+                guarded(move || {
+                    x >>= n;
+                    x
+                })
+            }
+        } else if form == "v" {
             let x = a.take().unwrap();
             if op == "shl" {
                 guarded(move || x << n)
@@ -1784,8 +2116,25 @@ pub fn arith_case(args: &[&str]) -> Res {
         }
     } else {
         macro_rules! forms {
-            ($o:tt) => {
+            ($o:tt, $oa:tt) => {
                 match form {
+                    // `x op= y` / `x op= &y` (impl_binop_assign_by_taking: `*self = mem::take(self) op rhs`)
+                    "av" => {
+                        let mut x = a.take().unwrap();
+                        let y = b.take().unwrap();
+                        guarded(move || {
+                            x $oa y;
+                            x
+                        })
+                    }
+                    "ar" => {
+                        let mut x = a.take().unwrap();
+                        let y = b.as_ref().unwrap();
+                        guarded(move || {
+                            x $oa y;
+                            x
+                        })
+                    }
                     "rr" => {
                         let (x, y) = (a.as_ref().unwrap(), b.as_ref().unwrap());
                         guarded(|| x $o y)
@@ -1809,11 +2158,14 @@ pub fn arith_case(args: &[&str]) -> Res {
             };
         }
         match op {
-            "add" => forms!(+),
-            "sub" => forms!(-),
-            "div" => forms!(/),
-            "rem" => forms!(%),
-            _ => forms!(*),
+            "add" => forms!(+, +=),
+            "sub" => forms!(-, -=),
+            "div" => forms!(/, /=),
+            "rem" => forms!(%, %=),
+            "and" => forms!(&, &=),
+            "or" => forms!(|, |=),
+            "xor" => forms!(^, ^=),
+            _ => forms!(*, *=),
         }
     };
     let ev = drain_events();
